@@ -221,6 +221,17 @@ func (n *Net) newConn(l *Link, rd, wr *Pipe, side string) *Conn {
 
 // Dial implements hsms.DialFunc.
 func (n *Net) Dial(ctx context.Context, network, address string) (net.Conn, error) {
+	c, err := n.dial(ctx, network, address)
+	if err == nil {
+		// a scheduling point with the established connection in hand (the dialing goroutine may be
+		// held here while the rest of the system moves on: a Close crossing a completed dial)
+		simhook.Resume("net.Dial.ret")
+	}
+
+	return c, err
+}
+
+func (n *Net) dial(ctx context.Context, network, address string) (net.Conn, error) {
 	simhook.Yield("net.Dial")
 	n.mu.Lock()
 	n.Dials++
